@@ -330,6 +330,11 @@ def gen_interior_end(rng):
     """tags of type 0 in the MIDDLE of the region (size 8 = a complete end tag image, and other sizes) followed by modules and
     other tags: the walk does not stop at them, so neither may the module iterator or a getter"""
     out = []
+    # module tags of EVERY size from the bare fixed part (16: no command-line bytes at all) upwards
+    for msize in (16, 17, 18, 23, 24, 25):
+        m = tag(3, u32(0x1000) + u32(0x2000) + rbytes(rng, msize - 16), rng=rng)
+        out.append(sweep(mbi([m, t_meminfo(rng), t_module(rng)])))
+        out.append(sweep(mbi([t_module(rng), m])))
     for endsize in (8, 9, 12, 16):
         e = tag(0, rbytes(rng, endsize - 8), rng=rng)
         out.append(sweep(mbi([t_cmdline(rng), e, t_module(rng), t_module(rng)])))
@@ -386,6 +391,28 @@ def gen_misc(rng):
     for es in (0, 23, 24, 25, 48):
         body = u32(es) + u32(0) + rbytes(rng, 48)
         out.append(sweep(mbi([tag(6, body, rng=rng)])))
+    # RSDP v2 lengths at the top of the u32 range (8 + length wraps in 32 bits)
+    for length in (0x7FFFFFFF, 0x80000000, 0xFFFFFFF7, 0xFFFFFFF8, 0xFFFFFFF9, 0xFFFFFFFE):
+        out.append(sweep(mbi([t_rsdp2(rng, False, length)])))
+        out.append(sweep(surround(rng, t_rsdp2(rng, True, length))))
+    # an RSDP v2 tag as the LAST thing in the region: its ext_checksum / reserved / padding bytes spell an end tag, so the region
+    # loads with the declared size ending right behind the tag; lengths 37..48 make a sum over `length` bytes reach 1..8 bytes
+    # behind the declared region. The checksum byte is arranged so that the sum INCLUDING those outside bytes is 0 for one of the
+    # two poison fills the harness uses (0xA5, 0x3C): an implementation that reads them changes its answer with the poison.
+    for length in range(37, 49):
+        for poison in (0xA5, 0x3C):
+            body = bytearray(rsdp_body(rng, True, True, length))
+            body[32:36] = u32(0)           # ext_checksum + reserved  = end tag type 0 ...
+            t = bytearray(tag(15, bytes(body), rng=rng))
+            t[40:44] = u32(0)
+            t[44:48] = u32(8)              # ... and the padding = end tag size 8
+            t = t[:48]
+            region = bytearray(u32(8 + 48) + u32(0) + bytes(t))
+            o = 8
+            inside = sum(region[o + 8:min(o + 8 + length, len(region))])
+            outside = max(0, o + 8 + length - len(region)) * poison
+            region[o + 16] = (region[o + 16] - inside - outside) % 256      # the RSDP checksum byte
+            out.append("SWEEP " + hx(bytes(region)))
     for mm in list(range(0, 12)) + [0x7F, 0x80, 200, 255]:
         out.append(sweep(mbi([t_vbe(rng, mm)])))
     # modules: several, interleaved, one malformed
@@ -441,6 +468,16 @@ def gen_elfname(rng, tier):
                     out.append("ELFNAME %d %d %d %s %s" % (es, n, shndx, hx(ents), hx(strtab)))
     for es in (0, 39, 41, 48, 63, 65):
         out.append("ELFNAME %d 1 0 %s %s" % (es, hx(rbytes(rng, 64)), hx(b"\0abc\0")))
+    # a string table that does NOT start with a NUL, and sections whose name index is 0: the name is whatever the table holds there
+    for es in (40, 64):
+        for strtab in (b".text\0.shstrtab\0", b"x\0", b"\xc3\xa9\0"):
+            ents = b""
+            for idx in (0, 0, len(strtab) - 1):
+                e = bytearray(elf_entry(rng, es, 1))
+                e[0:4] = u32(idx)
+                ents += bytes(e)
+            for shndx in (0, 1, 2):
+                out.append("ELFNAME %d 3 %d %s %s" % (es, shndx, hx(ents), hx(strtab)))
     return out
 
 
